@@ -25,6 +25,7 @@ RULE = (
 ASSUMPTIONS = [
     "block D: plug-in events one period earlier / later than the EV's nominal arrival (the property ties plug-in to the event, unplug to the departure)",
     "block E: six sessions on six unconstrained stations, plug-in events queued in every order of their arrival times",
+    "block F: the event queue handed over empty and filled afterwards; two non-overlapping sessions carrying the same session id; block B includes sessions that request 0 kWh",
     "small-scope: <=3 stations, <=4 sessions, arrivals<=3, stays<=4, periods 1/5/7.5 min",
     "reference model: occupant(station,t) = the session with arrival<=t<departure; scheduler alphabets are scripted max-pilot (1- and 3-period schedules), empty script, uncontrolled, FCFS greedy",
     "infeasible scripted schedules legitimately only warn; warnings are not violations",
@@ -41,6 +42,8 @@ def sess(st, a, stay, energy="large", batt="ideal"):
     if batt == "ideal":
         if energy == "large":
             s.update(e=50.0, cap=100.0, init=0.0)
+        elif energy == "zero":  # a session that asks for nothing (it still occupies its space)
+            s.update(e=0.0, cap=10.0, init=5.0)
         else:
             s.update(e=0.3, cap=1.0, init=0.2)
     else:  # two-stage: starts just below the transition SoC
@@ -82,7 +85,7 @@ def space(tier, seed):
             for st in stations
             for a in ((0, 1, 3) if thorough else (0, 1))
             for sy in ((1, 2, 4) if thorough else (1, 2))
-            for en, bt in (("large", "ideal"), ("small", "ideal"), ("large", "l2c"), ("small", "l2s"))
+            for en, bt in (("large", "ideal"), ("small", "ideal"), ("large", "l2c"), ("small", "l2s"), ("zero", "ideal"))
         ]
         scheds = ["max1", "max3", "empty"] + ([] if netname == "N3" else ["unc", "fcfs"])
         for ss in S.session_subsets(pool, 1, 2 if not thorough else 2):
@@ -132,6 +135,17 @@ def space(tier, seed):
                 continue
             ss = [dict(sess("PS-%d" % (i + 1), a, 1 + (i % 2)), sid="ev%d" % i) for i, a in enumerate(perm)]
             items.append({"net": "N8", "sessions": ss, "sched": SCHEDS["unc"], "sk": "unc", "k": 1, "period": 1})
+    # ---- block F: the caller's queue is still empty when the simulator is built and is filled afterwards; and two
+    # sessions of one vehicle tag (the SAME session id on two non-overlapping visits)
+    for netname, stations in (("N1", ["PS-A", "PS-B"]),):
+        pool = [sess(st, a, sy) for st in stations for a in (0, 1, 3) for sy in (1, 2)]
+        for ss in S.session_subsets(pool, 1, 2):
+            for sk, k in (("max1", 1), ("unc", 1), ("max3", 2)):
+                items.append({"net": netname, "sessions": ss, "sched": SCHEDS[sk], "sk": sk, "k": k, "period": 1, "queue_after": True})
+            if len(ss) == 2 and ss[0]["d"] <= ss[1]["a"]:
+                twin = [dict(ss[0]), dict(ss[1], sid=ss[0]["sid"])]
+                for sk, k in (("max1", 1), ("unc", 1), ("fcfs", 1)):
+                    items.append({"net": netname, "sessions": twin, "sched": SCHEDS[sk], "sk": sk, "k": k, "period": 1})
     return items
 
 
@@ -222,7 +236,7 @@ def check(scn, tr, out):
             row = cr[ids.index(s["st"])]
             for t in range(min(cr.shape[1], L + 1)):
                 mine = plug(s) <= t < s["d"]
-                other = occ[t][s["st"]] not in (None, s["sid"])
+                other = any(s2 is not s and s2["st"] == s["st"] and plug(s2) <= t < s2["d"] for s2 in scn["sessions"])
                 if mine and not row[t] > 0:
                     out("rates:connected-but-no-current", "session %s connected in period %d but recorded rate is %s" % (s["sid"], t, row[t]), float(row[t]), ">0")
                     return
